@@ -450,7 +450,7 @@ def run(ck: common.Check, replay=None):
     else:
         for i, p in enumerate(CORPUS):
             progs.append((f"corpus{i:03d}", p))
-        n_rand = 120 if ck.tier == "quick" else 1500
+        n_rand = 60 if ck.tier == "quick" else 1500
         g = Gen(ck.rng, max_stmts=10 if ck.tier == "quick" else 14, max_depth=3)
         for i in range(n_rand):
             progs.append((f"rand{i:04d}", g.program()))
